@@ -109,3 +109,25 @@ func VerifNewRootIdx(fID, rootOff uint64, start, end []byte) *BPTreeRootIdx {
 func (bri *BPTreeRootIdx) VerifFields() (fID, rootOff uint64, start, end []byte, crc uint32) {
 	return bri.fID, bri.rootOff, bri.start, bri.end, bri.crc
 }
+
+// VerifInsert inserts a key with a record that carries value (direct B+ tree checks of the harness).
+func (t *BPTree) VerifInsert(key, value []byte) error {
+	meta := &MetaData{Flag: DataSetFlag}
+	return t.Insert(key, &Entry{Key: key, Value: value, Meta: meta}, &Hint{key: key, meta: meta}, CountFlagEnabled)
+}
+
+// VerifValue returns the value of the entry a record carries (nil when it carries none).
+func (r *Record) VerifValue() []byte {
+	if r == nil || r.E == nil {
+		return nil
+	}
+	return r.E.Value
+}
+
+// VerifKey returns the key of a record's hint.
+func (r *Record) VerifKey() []byte {
+	if r == nil || r.H == nil {
+		return nil
+	}
+	return r.H.key
+}
